@@ -204,6 +204,19 @@ class Spec:
                     bad("failed-update-changed-settings", "update_settings(%r) raised but local_settings changed" % (d,))
                 out = "us-raise"
         elif lab == "rxack":
+            if len(st.sent) == 1 and not st.diverged and MFS in st.sent[0]:
+                # "from the moment the peer acknowledges": a frame that follows the ACK in the SAME chunk is already judged by
+                # the acknowledged MAX_FRAME_SIZE (on copies of the connection; an unknown frame type carries the length)
+                newf = st.sent[0][MFS]
+                for L, okay in ((newf, True), (newf + 1, False)):
+                    c2 = pickle.loads(pickle.dumps(h.conn))
+                    o2 = H.recv(c2, wire.settings([], ack=True).serialize() + wire.raw(0x42, 0, 0, b"\0" * L).serialize())
+                    if okay and o2.kind != "ok":
+                        bad("local-mfs-probe", "a frame of exactly the acknowledged MAX_FRAME_SIZE=%d right behind the ACK (same chunk) rejected: %s" % (
+                            newf, o2.brief()), probe="local-mfs-probe", expected="accept", same_chunk=True)
+                    if not okay and not (o2.kind == "raise" and o2.exc_name == "FrameTooLargeError"):
+                        bad("local-mfs-probe", "a frame of MAX_FRAME_SIZE+1=%d right behind the ACK (same chunk) not refused: %s" % (
+                            newf + 1, o2.brief()), probe="local-mfs-probe", expected="reject", same_chunk=True)
             o = h.rx([wire.settings([], ack=True)])
             if o.kind != "ok":
                 bad("settings-ack-rejected", "SETTINGS ACK -> %s" % o.brief())
